@@ -100,7 +100,7 @@ func (s *intraProxyStreamSender) Run(
 
 	// register this sender so sendMessages can use it
 	s.shardManager.GetIntraProxyManager().RegisterSender(s.peerNodeName, s.targetShardID, s.sourceShardID, s)
-	defer s.shardManager.GetIntraProxyManager().UnregisterSender(s.peerNodeName, s.targetShardID, s.sourceShardID)
+	defer s.shardManager.GetIntraProxyManager().UnregisterSender(s.peerNodeName, s.targetShardID, s.sourceShardID, s)
 
 	// Send pending watermarks to late-registering shards
 	// When a sender is registered, check if there's an active receiver for the source shard
@@ -486,16 +486,19 @@ func (m *intraProxyManager) RegisterSender(
 	m.streamsMu.Unlock()
 }
 
+// UnregisterSender removes the sender registered for the shard pair only if it is still the given sender: when the peer
+// re-establishes its stream before the previous one has finished, the old sender must not remove its successor.
 func (m *intraProxyManager) UnregisterSender(
 	peerNodeName string,
 	targetShard history.ClusterShardID,
 	sourceShard history.ClusterShardID,
+	sender *intraProxyStreamSender,
 ) {
 	key := peerStreamKey{targetShard: targetShard, sourceShard: sourceShard}
 	m.loggers.Get(logging.ShardRouting).Info("UnregisterSender", tag.NewStringTag("peerNodeName", peerNodeName),
 		tag.NewStringTag("key", fmt.Sprintf("%v", key)))
 	m.streamsMu.Lock()
-	if ps := m.peers[peerNodeName]; ps != nil && ps.senders != nil {
+	if ps := m.peers[peerNodeName]; ps != nil && ps.senders != nil && ps.senders[key] == sender {
 		delete(ps.senders, key)
 	}
 	m.streamsMu.Unlock()
